@@ -569,7 +569,7 @@ theorem sim_callLam (cfg : Cfg) (n : Nat) (hsim : SimAt cfg env n) {Ïƒ : RSt} {Ï
               unfold calleePi at hcall
               unfold callPy
               simp only [hpf, hlr.params, hbind, R_ok_bind, hcall]
-              simp only [lambdaParams, hfirst]
+              simp only [lambdaParams, hfirst, â†“reduceIte]
     Â· simp [hlive] at hr
 
 
